@@ -162,39 +162,43 @@ theorem Good.bind {C : Addr → Prop} {α β : Type} {E R} {p : Prog α} {f : α
 
 /-! ## the invariant of one client's view -/
 
-structure KInv (X : Addr → Goal → Prop) (E : Addr → Goal → Prop) (R : Addr → Prop) (s : AbsState) : Prop where
+structure KInv (C : Addr → Prop) (X : Addr → Goal → Prop) (E : Addr → Goal → Prop) (R : Addr → Prop) (s : AbsState) : Prop where
   backed : BackedEx X s
   keyed : Keyed s
   hE : ∀ a g, E a g → X a g ∨ InQ s a g
   hR : ∀ a, R a → ∀ (row : SRow), s.servers[a.key]? = some row → row.svr.addr = a
+  /-- every stored and every known address satisfies the side condition (`True`, or `Addr.PortOk`) -/
+  rowsC : ∀ (k : Nat) (row : SRow), s.servers[k]? = some row → C row.svr.addr
+  hRC : ∀ a, R a → C a
 
-variable {X : Addr → Goal → Prop} {E : Addr → Goal → Prop} {R : Addr → Prop}
+variable {C : Addr → Prop} {X : Addr → Goal → Prop} {E : Addr → Goal → Prop} {R : Addr → Prop}
 
-theorem KInv.weaken {E' : Addr → Goal → Prop} {R' : Addr → Prop} {s : AbsState} (h : KInv X E R s)
-    (hE : ∀ a g, E' a g → E a g) (hR : ∀ a, R' a → R a) : KInv X E' R' s :=
-  ⟨h.backed, h.keyed, fun a g he => h.hE a g (hE a g he), fun a hr => h.hR a (hR a hr)⟩
+theorem KInv.weaken {E' : Addr → Goal → Prop} {R' : Addr → Prop} {s : AbsState} (h : KInv C X E R s)
+    (hE : ∀ a g, E' a g → E a g) (hR : ∀ a, R' a → R a) : KInv C X E' R' s :=
+  ⟨h.backed, h.keyed, fun a g he => h.hE a g (hE a g he), fun a hr => h.hR a (hR a hr), h.rowsC, fun a hr => h.hRC a (hR a hr)⟩
 
-theorem KInv.addFalse {s : AbsState} {F : Addr → Goal → Prop} {G : Addr → Prop} (h : KInv X E R s)
-    (hF : ∀ a g, ¬ F a g) (hG : ∀ a, ¬ G a) : KInv X (fun a g => E a g ∨ F a g) (fun a => R a ∨ G a) s :=
+theorem KInv.addFalse {s : AbsState} {F : Addr → Goal → Prop} {G : Addr → Prop} (h : KInv C X E R s)
+    (hF : ∀ a g, ¬ F a g) (hG : ∀ a, ¬ G a) : KInv C X (fun a g => E a g ∨ F a g) (fun a => R a ∨ G a) s :=
   h.weaken (fun a g he => he.elim id (fun hf => (hF a g hf).elim)) (fun a hr => hr.elim id (fun hg => (hG a hg).elim))
 
 /-- the state changed, but neither the rows nor (downwards) the queue -/
-theorem KInv.queue_mono {s s' : AbsState} (h : KInv X E R s) (hs : s'.servers = s.servers)
-    (hq : ∀ q ∈ s.queue, q ∈ s'.queue) : KInv X E R s' := by
+theorem KInv.queue_mono {s s' : AbsState} (h : KInv C X E R s) (hs : s'.servers = s.servers)
+    (hq : ∀ q ∈ s.queue, q ∈ s'.queue) : KInv C X E R s' := by
   have hin : ∀ a g, InQ s a g → InQ s' a g := fun a g ⟨q, hm, hp⟩ => ⟨q, hq q hm, hp⟩
-  refine ⟨?_, ?_, ?_, ?_⟩
+  refine ⟨?_, ?_, ?_, ?_, ?_, h.hRC⟩
   · intro k row g hr hm
     rw [hs] at hr
     exact (h.backed k row g hr hm).imp id (hin _ _)
   · intro k row hr; rw [hs] at hr; exact h.keyed k row hr
   · intro a g he; exact (h.hE a g he).imp id (hin _ _)
   · intro a hr row hrow; rw [hs] at hrow; exact h.hR a hr row hrow
+  · intro k row hr; rw [hs] at hr; exact h.rowsC k row hr
 
 /-- a returned record that is stored under its own key adds sound knowledge -/
-theorem KInv.learn_row {s : AbsState} (h : KInv X E R s) (r : Server) (t : Int)
+theorem KInv.learn_row {s : AbsState} (h : KInv C X E R s) (r : Server) (t : Int)
     (hrow : s.servers[r.addr.key]? = some ⟨r, t⟩) :
-    KInv X (fun a g => E a g ∨ (a = r.addr ∧ Marked r g)) (fun a => R a ∨ a = r.addr) s := by
-  refine ⟨h.backed, h.keyed, ?_, ?_⟩
+    KInv C X (fun a g => E a g ∨ (a = r.addr ∧ Marked r g)) (fun a => R a ∨ a = r.addr) s := by
+  refine ⟨h.backed, h.keyed, ?_, ?_, h.rowsC, ?_⟩
   · intro a g he
     rcases he with he | ⟨rfl, hm⟩
     · exact h.hE a g he
@@ -203,9 +207,13 @@ theorem KInv.learn_row {s : AbsState} (h : KInv X E R s) (r : Server) (t : Int)
     rcases hr with hr | rfl
     · exact h.hR a hr row hrow'
     · rw [hrow] at hrow'; cases hrow'; rfl
+  · intro a hr
+    rcases hr with hr | rfl
+    · exact h.hRC a hr
+    · exact h.rowsC _ _ hrow
 
-theorem erase_kinv {s : AbsState} (h : KInv X E R s) (k0 : Nat) : KInv X E R { s with servers := s.servers.erase k0 } := by
-  refine ⟨?_, ?_, h.hE, ?_⟩
+theorem erase_kinv {s : AbsState} (h : KInv C X E R s) (k0 : Nat) : KInv C X E R { s with servers := s.servers.erase k0 } := by
+  refine ⟨?_, ?_, h.hE, ?_, ?_, h.hRC⟩
   · intro k row g hr hm
     simp only [ExtTreeMap.getElem?_erase] at hr
     split at hr
@@ -221,15 +229,20 @@ theorem erase_kinv {s : AbsState} (h : KInv X E R s) (k0 : Nat) : KInv X E R { s
     split at hrow
     · cases hrow
     · exact h.hR a hr row hrow
+  · intro k row hr
+    simp only [ExtTreeMap.getElem?_erase] at hr
+    split at hr
+    · cases hr
+    · exact h.rowsC k row hr
 
 /-- `save` of a record whose marks are backed and whose address is the one known for its key -/
-theorem save_kinv {s : AbsState} (h : KInv X E R s) (now : Int) (svr : Server)
+theorem save_kinv {s : AbsState} (h : KInv C X E R s) (now : Int) (svr : Server)
     (hm : ∀ g, Marked svr g → X svr.addr g ∨ InQ s svr.addr g)
-    (hR : ∀ a, R a → a.key = svr.addr.key → a = svr.addr) :
-    KInv X E R (s.save now svr).1 ∧
+    (hR : ∀ a, R a → a.key = svr.addr.key → a = svr.addr) (hC : C svr.addr) :
+    KInv C X E R (s.save now svr).1 ∧
       (s.save now svr).1.servers[(s.save now svr).2.addr.key]? = some ⟨(s.save now svr).2, now⟩ ∧
       (s.save now svr).2.addr = svr.addr := by
-  refine ⟨⟨?_, ?_, h.hE, ?_⟩, ?_, rfl⟩
+  refine ⟨⟨?_, ?_, h.hE, ?_, ?_, h.hRC⟩, ?_, rfl⟩
   · intro k row g hr hmk
     simp only [AbsState.save, ExtTreeMap.getElem?_insert] at hr
     split at hr
@@ -250,18 +263,23 @@ theorem save_kinv {s : AbsState} (h : KInv X E R s) (now : Int) (svr : Server)
       have hk' : svr.addr.key = a.key := by simpa using hk
       exact (hR a hr hk'.symm).symm
     · exact h.hR a hr row hrow
+  · intro k row hr
+    simp only [AbsState.save, ExtTreeMap.getElem?_insert] at hr
+    split at hr
+    · cases hr; exact hC
+    · exact h.rowsC k row hr
   · simp [AbsState.save]
 
 /-! ## one call -/
 
-theorem inj_of_row {s : AbsState} (h : KInv X E R s) (svr : Server) (hRs : R svr.addr) (ex : SRow)
+theorem inj_of_row {s : AbsState} (h : KInv C X E R s) (svr : Server) (hRs : R svr.addr) (ex : SRow)
     (hrow : s.servers[svr.addr.key]? = some ex) : ∀ a, R a → a.key = svr.addr.key → a = svr.addr := by
   intro a ha hk
   have h1 := h.hR a ha ex (by rw [hk]; exact hrow)
   have h2 := h.hR svr.addr hRs ex hrow
   rw [← h1, h2]
 
-theorem write_marks {s : AbsState} (h : KInv X E R s) (svr : Server) (hw : WriteOK E R svr)
+theorem write_marks {s : AbsState} (h : KInv C X E R s) (svr : Server) (hw : WriteOK E R svr)
     (hinj : ∀ a, R a → a.key = svr.addr.key → a = svr.addr) :
     ∀ g, Marked svr g → X svr.addr g ∨ InQ s svr.addr g := by
   intro g hm
@@ -271,18 +289,18 @@ theorem write_marks {s : AbsState} (h : KInv X E R s) (svr : Server) (hw : Write
   exact h.hE _ _ he
 
 /-- saving the caller's record -/
-theorem direct_kinv {s : AbsState} (h : KInv X E R s) (now : Int) (svr : Server)
+theorem direct_kinv {s : AbsState} (h : KInv C X E R s) (now : Int) (svr : Server) (hRs : R svr.addr)
     (hinj : ∀ a, R a → a.key = svr.addr.key → a = svr.addr) (hw : WriteOK E R svr) :
-    KInv X (fun a g => E a g ∨ learnSvrE (.ok (s.save now svr).2) a g) (fun a => R a ∨ learnSvrR (.ok (s.save now svr).2) a)
+    KInv C X (fun a g => E a g ∨ learnSvrE (.ok (s.save now svr).2) a g) (fun a => R a ∨ learnSvrR (.ok (s.save now svr).2) a)
       (s.save now svr).1 ∧ replySvrOk svr.addr.key (.ok (s.save now svr).2) := by
-  obtain ⟨h1, h2, h3⟩ := save_kinv h now svr (write_marks h svr hw hinj) hinj
+  obtain ⟨h1, h2, h3⟩ := save_kinv h now svr (write_marks h svr hw hinj) hinj (h.hRC _ hRs)
   exact ⟨h1.learn_row _ now h2, by simp only [replySvrOk, h3]⟩
 
 /-- saving what the conflict callback made of the stored record -/
-theorem resolved_kinv {s : AbsState} (h : KInv X E R s) (now : Int) (svr : Server) (hRs : R svr.addr) (ex : SRow)
+theorem resolved_kinv {s : AbsState} (h : KInv C X E R s) (now : Int) (svr : Server) (hRs : R svr.addr) (ex : SRow)
     (hrow : s.servers[svr.addr.key]? = some ex) (res : Resolver) (hres : ResOK E R svr res) (r : Server)
     (hr : res ex.svr = some r) :
-    KInv X (fun a g => E a g ∨ learnSvrE (.ok (s.save now r).2) a g) (fun a => R a ∨ learnSvrR (.ok (s.save now r).2) a)
+    KInv C X (fun a g => E a g ∨ learnSvrE (.ok (s.save now r).2) a g) (fun a => R a ∨ learnSvrR (.ok (s.save now r).2) a)
       (s.save now r).1 ∧ replySvrOk svr.addr.key (.ok (s.save now r).2) := by
   obtain ⟨hra, hrm⟩ := hres ex.svr r hr
   have hex : ex.svr.addr = svr.addr := h.hR _ hRs ex hrow
@@ -297,26 +315,26 @@ theorem resolved_kinv {s : AbsState} (h : KInv X E R s) (now : Int) (svr : Serve
     · have := hinj0 a ha hk
       subst this
       rw [hrs]; exact h.hE _ _ he
-  obtain ⟨h1, h2, h3⟩ := save_kinv h now r hm hinj
+  obtain ⟨h1, h2, h3⟩ := save_kinv h now r hm hinj (by rw [hrs]; exact h.hRC _ hRs)
   exact ⟨h1.learn_row _ now h2, by simp only [replySvrOk, h3, hrs]⟩
 
 /-- the state is unchanged and the reply is the stored row -/
-theorem stored_kinv {s : AbsState} (h : KInv X E R s) (k : Nat) (ex : SRow) (hrow : s.servers[k]? = some ex) :
-    KInv X (fun a g => E a g ∨ learnSvrE (.ok ex.svr) a g) (fun a => R a ∨ learnSvrR (.ok ex.svr) a) s ∧
+theorem stored_kinv {s : AbsState} (h : KInv C X E R s) (k : Nat) (ex : SRow) (hrow : s.servers[k]? = some ex) :
+    KInv C X (fun a g => E a g ∨ learnSvrE (.ok ex.svr) a g) (fun a => R a ∨ learnSvrR (.ok ex.svr) a) s ∧
       replySvrOk k (.ok ex.svr) := by
   have hk := h.keyed k ex hrow
   refine ⟨?_, hk⟩
   have : s.servers[ex.svr.addr.key]? = some ⟨ex.svr, ex.updatedAt⟩ := by rw [hk]; exact hrow
   exact h.learn_row _ _ this
 
-theorem error_kinv {s : AbsState} (h : KInv X E R s) (e : RErr) (k : Nat) :
-    KInv X (fun a g => E a g ∨ learnSvrE (.error e) a g) (fun a => R a ∨ learnSvrR (.error e) a) s ∧
+theorem error_kinv {s : AbsState} (h : KInv C X E R s) (e : RErr) (k : Nat) :
+    KInv C X (fun a g => E a g ∨ learnSvrE (.error e) a g) (fun a => R a ∨ learnSvrR (.error e) a) s ∧
       replySvrOk k (.error e) :=
   ⟨h.addFalse (fun _ _ hf => hf) (fun _ hf => hf), trivial⟩
 
-theorem update_kinv {s : AbsState} (h : KInv X E R s) (now : Int) (svr : Server) (res : Resolver)
+theorem update_kinv {s : AbsState} (h : KInv C X E R s) (now : Int) (svr : Server) (res : Resolver)
     (hRs : R svr.addr) (hw : WriteOK E R svr) (hres : ResOK E R svr res) :
-    KInv X (fun a g => E a g ∨ learnSvrE (s.update now svr res).2 a g) (fun a => R a ∨ learnSvrR (s.update now svr res).2 a)
+    KInv C X (fun a g => E a g ∨ learnSvrE (s.update now svr res).2 a g) (fun a => R a ∨ learnSvrR (s.update now svr res).2 a)
       (s.update now svr res).1 ∧ replySvrOk svr.addr.key (s.update now svr res).2 := by
   unfold AbsState.update
   cases hrow : s.getRow svr.addr with
@@ -328,15 +346,15 @@ theorem update_kinv {s : AbsState} (h : KInv X E R s) (now : Int) (svr : Server)
     · cases hr : res ex.svr with
       | none => exact stored_kinv h _ ex hrow'
       | some r => exact resolved_kinv h now svr hRs ex hrow' res hres r hr
-    · exact direct_kinv h now svr (inj_of_row h svr hRs ex hrow') hw
+    · exact direct_kinv h now svr hRs (inj_of_row h svr hRs ex hrow') hw
 
-theorem add_kinv {s : AbsState} (h : KInv X E R s) (now : Int) (svr : Server) (res : Resolver)
+theorem add_kinv {s : AbsState} (h : KInv C X E R s) (now : Int) (svr : Server) (res : Resolver)
     (hRs : R svr.addr) (hinj : ∀ b, R b → b.key = svr.addr.key → b = svr.addr) (hw : WriteOK E R svr) (hres : ResOK E R svr res) :
-    KInv X (fun a g => E a g ∨ learnSvrE (s.add now svr res).2 a g) (fun a => R a ∨ learnSvrR (s.add now svr res).2 a)
+    KInv C X (fun a g => E a g ∨ learnSvrE (s.add now svr res).2 a g) (fun a => R a ∨ learnSvrR (s.add now svr res).2 a)
       (s.add now svr res).1 ∧ replySvrOk svr.addr.key (s.add now svr res).2 := by
   unfold AbsState.add
   cases hrow : s.getRow svr.addr with
-  | none => exact direct_kinv h now svr hinj hw
+  | none => exact direct_kinv h now svr hRs hinj hw
   | some ex =>
     have hrow' : s.servers[svr.addr.key]? = some ex := hrow
     dsimp only
@@ -344,7 +362,7 @@ theorem add_kinv {s : AbsState} (h : KInv X E R s) (now : Int) (svr : Server) (r
     | none => exact error_kinv h _ _
     | some r => exact resolved_kinv h now svr hRs ex hrow' res hres r hr
 
-theorem remove_kinv {s : AbsState} (h : KInv X E R s) (svr : Server) (res : Resolver) : KInv X E R (s.remove svr res).1 := by
+theorem remove_kinv {s : AbsState} (h : KInv C X E R s) (svr : Server) (res : Resolver) : KInv C X E R (s.remove svr res).1 := by
   unfold AbsState.remove
   cases hrow : s.getRow svr.addr with
   | none => exact h
@@ -376,8 +394,8 @@ theorem enqueue_inq (s : AbsState) (now : Int) (p : Probe) (after before : GoTim
 
 /-- **one call.**  A call that meets its obligations keeps the invariant, and what the client learns from the
 reply is sound in the new state. -/
-theorem exec_kinv (C : Addr → Prop) {β : Type} (c : Call β) (s : AbsState) (now : Int) (hc : CallOK E R c) (h : KInv X E R s) :
-    KInv X (fun a g => E a g ∨ learnE c (c.exec s now).2 a g) (fun a => R a ∨ learnR C c (c.exec s now).2 a) (c.exec s now).1 ∧
+theorem exec_kinv {β : Type} (c : Call β) (s : AbsState) (now : Int) (hc : CallOK E R c) (h : KInv C X E R s) :
+    KInv C X (fun a g => E a g ∨ learnE c (c.exec s now).2 a g) (fun a => R a ∨ learnR C c (c.exec s now).2 a) (c.exec s now).1 ∧
       ReplyOk c (c.exec s now).2 := by
   cases c with
   | now => exact ⟨h.addFalse (fun _ _ hf => hf) (fun _ hf => hf), trivial⟩
@@ -395,7 +413,7 @@ theorem exec_kinv (C : Addr → Prop) {β : Type} (c : Call β) (s : AbsState) (
   | enqueue p after before =>
     have h' := h.queue_mono (s' := s.enqueue now p after before) (enqueue_servers s now p after before)
       (enqueue_queue_mono s now p after before)
-    refine ⟨⟨h'.backed, h'.keyed, ?_, ?_⟩, trivial⟩
+    refine ⟨⟨h'.backed, h'.keyed, ?_, ?_, h'.rowsC, ?_⟩, trivial⟩
     · intro a g he
       rcases he with he | ⟨hab, rfl, rfl⟩
       · exact h'.hE a g he
@@ -404,11 +422,15 @@ theorem exec_kinv (C : Addr → Prop) {β : Type} (c : Call β) (s : AbsState) (
       rcases hr with hr | hf
       · exact h'.hR a hr
       · exact hf.elim
+    · intro a hr
+      rcases hr with hr | hf
+      · exact h'.hRC a hr
+      · exact hf.elim
   | getServer x =>
     simp only [Call.exec, AbsState.get]
     cases hrow : s.getRow x with
     | none =>
-      refine ⟨⟨h.backed, h.keyed, ?_, ?_⟩, trivial⟩
+      refine ⟨⟨h.backed, h.keyed, ?_, ?_, h.rowsC, ?_⟩, trivial⟩
       · intro a g he
         rcases he with he | hf
         · exact h.hE a g he
@@ -418,6 +440,10 @@ theorem exec_kinv (C : Addr → Prop) {β : Type} (c : Call β) (s : AbsState) (
         · exact h.hR a hr row hrow'
         · have : s.servers[a.key]? = none := hrow
           rw [this] at hrow'; cases hrow'
+      · intro a hr
+        rcases hr with hr | ⟨rfl, hc⟩
+        · exact h.hRC a hr
+        · exact hc
     | some ex =>
       have hrow' : s.servers[x.key]? = some ex := hrow
       have := stored_kinv h x.key ex hrow'
@@ -441,8 +467,8 @@ theorem fault_learn (C : Addr → Prop) {β : Type} (c : Call β) (e : β) (he :
     simp [learnE, learnR, ReplyOk, learnSvrE, learnSvrR, replySvrOk]
 
 /-- **every prefix of every faulty run** of a `Good` program keeps `BackedEx X` and `Keyed` -/
-theorem Good.runChoices_kinv {C : Addr → Prop} {α : Type} {E R} {p : Prog α} (hp : Good C E R p) :
-    ∀ (cs : List Choice) (s : AbsState) (now : Int), KInv X E R s →
+theorem Good.runChoices_kinv {α : Type} {E R} {p : Prog α} (hp : Good C E R p) :
+    ∀ (cs : List Choice) (s : AbsState) (now : Int), KInv C X E R s →
       BackedEx X (p.runChoices cs s now) ∧ Keyed (p.runChoices cs s now) := by
   induction hp with
   | ret E R a => intro cs s now h; cases cs <;> exact ⟨h.backed, h.keyed⟩
@@ -451,7 +477,7 @@ theorem Good.runChoices_kinv {C : Addr → Prop} {α : Type} {E R} {p : Prog α}
     cases cs with
     | nil => exact ⟨h.backed, h.keyed⟩
     | cons ch cs =>
-      have hex := exec_kinv C c s now hc h
+      have hex := exec_kinv c s now hc h
       cases hf : c.faultReply with
       | none =>
         cases ch
@@ -472,8 +498,10 @@ theorem Good.runChoices_kinv {C : Addr → Prop} {α : Type} {E R} {p : Prog α}
           exact ih e f3 cs _ now ((hex.1.weaken (fun a g he => Or.inl he) (fun a hr => Or.inl hr)).addFalse f1 f2)
 
 /-- the initial knowledge is empty -/
-theorem KInv.init {s : AbsState} (hb : BackedEx X s) (hk : Keyed s) : KInv X (fun _ _ => False) (fun _ => False) s :=
-  ⟨hb, hk, fun _ _ hf => hf.elim, fun _ hf => hf.elim⟩
+theorem KInv.init {s : AbsState} (hb : BackedEx X s) (hk : Keyed s)
+    (hrows : ∀ (k : Nat) (row : SRow), s.servers[k]? = some row → C row.svr.addr) :
+    KInv C X (fun _ _ => False) (fun _ => False) s :=
+  ⟨hb, hk, fun _ _ hf => hf.elim, fun _ hf => hf.elim, hrows, fun _ hf => hf.elim⟩
 
 /-! ## status algebra -/
 
@@ -843,7 +871,7 @@ end good
 theorem Good.backed {α : Type} {p : Prog α} (hp : Good (fun _ => True) (fun _ _ => False) (fun _ => False) p)
     (cs : List Choice) (s : AbsState) (now : Int) (hb : Backed s) (hk : Keyed s) :
     Backed (p.runChoices cs s now) ∧ Keyed (p.runChoices cs s now) := by
-  have := hp.runChoices_kinv (X := fun _ _ => False) cs s now (KInv.init ((backed_iff s).1 hb) hk)
+  have := hp.runChoices_kinv (X := fun _ _ => False) cs s now (KInv.init ((backed_iff s).1 hb) hk (fun _ _ _ => trivial))
   exact ⟨(backed_iff _).2 this.1, this.2⟩
 
 /-- the same for a holder of the probe `(a, g)`: knowledge = "`a` is the address stored under its key" -/
@@ -853,7 +881,7 @@ theorem Good.backedExcept {α : Type} {p : Prog α} {a : Addr} {g : Goal}
     (hcanon : ∀ (row : SRow), s.servers[a.key]? = some row → row.svr.addr = a) :
     BackedExcept (p.runChoices cs s now) a g ∧ Keyed (p.runChoices cs s now) :=
   hp.runChoices_kinv (X := fun a' g' => a' = a ∧ g' = g) cs s now
-    ⟨hb, hk, fun _ _ hf => hf.elim, fun x hx row hrow => by subst hx; exact hcanon row hrow⟩
+    ⟨hb, hk, fun _ _ hf => hf.elim, fun x hx row hrow => by subst hx; exact hcanon row hrow, fun _ _ _ => trivial, fun _ _ => trivial⟩
 
 /-! ## runs to completion -/
 
